@@ -4,7 +4,10 @@
 From Verif Require Import Base Scope Types Prog Pop Token Authorize System Config Hoare Tactics.
 Local Open Scope N_scope.
 
-Definition anyG (g : gsession) : Prop := True.
+(* (also, for C05: the token id of a stored grant is never the empty string) *)
+Definition anyG (g : gsession) : Prop := g_token g <> 0.
+Lemma make_token_nz n c gt : snd (make_token n c gt) <> 0.
+Proof. unfold make_token, mint. destruct (token_is_jwt c gt); cbn; lia. Qed.
 Definition one_idx (s : asession) : Prop := n_indexes s = 1%nat.
 
 Local Opaque contains_all_scopes are_scopes_allowed validate_binding validate_pkce refresh_binding
@@ -18,7 +21,8 @@ Ltac crunch1 :=
               | |- _ /\ _ => split
               | |- forall _, _ => intro
               | H : (n_indexes ?s =? 1)%nat = true |- one_idx ?s => apply Nat.eqb_eq; exact H
-              | |- anyG _ => exact I
+              | E : make_token ?n ?c ?g = (_, ?t) |- anyG _ => unfold anyG, with_refresh, new_grant; cbn; pose proof (make_token_nz n c g) as HT; rewrite E in HT; try match goal with |- context [if ?b then _ else _] => destruct b end; cbn; exact HT
+              | E : make_token ?n ?c ?g = (_, ?t) |- ?t <> 0 => pose proof (make_token_nz n c g) as HT; rewrite E in HT; exact HT
               end;
           try break_goal).
 
@@ -70,7 +74,7 @@ Lemma continue_auth_sv w n now r : saves_ok anyG one_idx (continue_auth w n now 
 Proof.
   unfold continue_auth. break_goal; [exact I|]. cbn. split; [exact I|]. intros rp; destruct rp; try exact I.
   break_goal; [exact I|]. apply sv_bind; [apply authenticate_sv|].
-  intros [o|e]; [exact I|]. apply sv_bind; [apply get_client_sv|]. intros [c|]; exact I.
+  intros [o|e]; [exact I|]. apply sv_bind; [apply get_client_sv|]. intros [c|]; cbn; auto.
 Qed.
 Lemma push_auth_sv w n now r : saves_ok anyG one_idx (push_auth w n now r).
 Proof. unfold push_auth, save_a. break_goal; [exact I|]. auth_sv. crunch1. Qed.
@@ -124,7 +128,7 @@ Proof.
   - exact I.
 Qed.
 
-Definition all_one_index (st : state) : Prop := forall s, In s (st_asess (s_store st)) -> one_idx s.
+Definition all_one_index (st : state) : Prop := store_ok anyG one_idx (s_store st).
 
 Lemma step_one_index w st n o : all_one_index st -> all_one_index (fst (step w st n o)).
 Proof.
@@ -132,12 +136,11 @@ Proof.
   assert (G : forall p : prog obs, saves_ok anyG one_idx p ->
               all_one_index (fst (let '(sto, x) := run_seq p (s_store st) in (mkState sto (s_now st), x)))).
   { intros p Hp. pose proof (run_seq_ok anyG one_idx p (s_store st) Hp) as R.
-    destruct (run_seq p (s_store st)) as [sto x]. simpl in *. intros s Hs.
-    apply R; auto. split; [intros; exact I|exact H]. }
+    destruct (run_seq p (s_store st)) as [sto x]. simpl in *. apply R; auto. }
   destruct o; try (apply G; exact (handler_sv _ _ _ _)).
   simpl. exact H.
 Qed.
 
 Theorem one_index_all_histories w dyn ops :
   all_one_index (fst (run_from w (init_state dyn) 0 ops)).
-Proof. apply run_from_inv; [apply step_one_index|]. intros s []. Qed.
+Proof. apply run_from_inv; [apply step_one_index|]. split; intros ? []. Qed.
